@@ -29,7 +29,7 @@ structure AllowObs where
   optACAM : List Str
   optHandlerRan : Bool
   othersUntouched : Bool
-  deriving Repr
+  deriving Repr, DecidableEq
 
 /-- C17 on an observation (all sets are over the probed methods plus whatever the headers list) -/
 def c17Holds (o : AllowObs) : Bool :=
@@ -42,6 +42,76 @@ def c17Holds (o : AllowObs) : Bool :=
     | none => p.2.1 != 405) &&
   sameSet (o.optAllow.filter (probed.contains ·)) routableSet && o.optAllow.all (probed.contains ·) &&
   sameSet o.optACAM o.optAllow && !o.optHandlerRan && o.othersUntouched
+
+/-! ### the observation the MODEL produces
+
+What the harness (harness/internal/allow/allow.go `observe`) would record if the implementation WERE
+the model: the same record `AllowObs`, built from `route` (the probes) and `Options.optionsOut` (the
+container with the OPTIONS filter installed).  `Props/C17.lean` proves `c17Holds` of it
+(`C17_holds_jsr_partial`, `C17_holds_curly_partial`). -/
+
+/-- the Allow list the harness keeps of an outcome: only that of a 405 (`probe`: `o.Code == 405 && o.Allow != nil`) -/
+def allowOf : Outcome → Option (List Str)
+  | .error c a => if c = 405 then a else none
+  | _ => none
+
+/-- one probe (allow.go `probe`): the method, `statusOf` of what dispatch did with it (200 = a route
+    function ran; a panic is recorded as 500, the answer of the recover handler), the Allow list of a
+    405.  These are the `(p m status allow)` items the driver prints for an `(allow …)` line. -/
+def probeOf (E : ReEnv) (cfg : Config) (req : Req) (m : Str) : Str × Nat × Option (List Str) :=
+  let out := route E cfg { req with method := m }
+  (m, statusOf out, allowOf out)
+
+/-- what the OPTIONS filter reads of the probe with method `m` -/
+def optReqOf (req : Req) (m : Str) : Options.OptReq := { method := m, path := req.path }
+
+/-- `strings.TrimSpace` on an ASCII value -/
+def isWS (c : Char) : Bool := c == ' ' || c == '\t' || c == '\n' || c == '\r' || c.toNat == 11 || c.toNat == 12
+def trimWS (s : Str) : Str := ((s.dropWhile isWS).reverse.dropWhile isWS).reverse
+
+/-- allow.go `splitList(strings.Join(rec.Header()[name], ","))`: the values of the header joined
+    with commas, split at commas, trimmed, empty elements dropped -/
+def headerList (name : Str) (hs : List (Str × Str)) : List Str :=
+  ((Str.split ',' (Str.join [','] ((hs.filter (fun h => h.1 == name)).map (·.2)))).map trimWS).filter (fun p => !p.isEmpty)
+
+/-- the container with the OPTIONS filter, asked with method `m`: `none` = no such container (a
+    template does not compile), else what the filter added and whether it passed the request on -/
+def filtered (E : ReEnv) (cfg : Config) (req : Req) (m : Str) : Option Options.Out :=
+  Options.optionsOut E cfg (optReqOf req m)
+
+/-- the model's observation at the URL of `req` for the probed `methods` (allow.go `observe`).
+    * `probes`: `probeOf` for every method, on the container WITHOUT the filter;
+    * `optAllow`, `optACAM`: filled when OPTIONS is among the probed methods — the method list the
+      filter puts into Allow / Access-Control-Allow-Methods (`Options.optionsOut` joins
+      `computeAllowedMethods` with commas: `C17_filter_options`; `headerList` splits the header again:
+      `modelObs_wire`);
+    * `optHandlerRan`: with the filter installed a route function runs for OPTIONS only if the filter
+      passes the request on AND dispatch then selects a route;
+    * `othersUntouched`: for every other probed method the filter adds nothing and passes on, so the
+      answer is the one of the container without the filter. -/
+def modelObs (E : ReEnv) (cfg : Config) (req : Req) (methods : List Str) : AllowObs :=
+  let lists := if methods.contains Cors.sOPTIONS then (Cors.computeAllowedMethods E cfg.services req.path).getD [] else []
+  { probes := methods.map (probeOf E cfg req)
+    optAllow := lists
+    optACAM := lists
+    optHandlerRan := methods.contains Cors.sOPTIONS &&
+      (match filtered E cfg req Cors.sOPTIONS with
+       | some out => out.passOn && statusOf (route E cfg { req with method := Cors.sOPTIONS }) == 200
+       | none => false)
+    othersUntouched := (methods.filter (· != Cors.sOPTIONS)).all (fun m => filtered E cfg req m == some ⟨[], true⟩) }
+
+/-- the same observation with the two lists DECODED from the headers of the filter's answer, the way
+    the harness decodes them from the wire -/
+def modelObsWire (E : ReEnv) (cfg : Config) (req : Req) (methods : List Str) : AllowObs :=
+  let added := if methods.contains Cors.sOPTIONS then
+      (match filtered E cfg req Cors.sOPTIONS with | some out => out.added | none => []) else []
+  { modelObs E cfg req methods with
+    optAllow := headerList "Allow".toList added
+    optACAM := headerList Cors.hAllowMethods added }
+
+/-- a method name that survives the comma-separated header: a non-empty run of visible ASCII
+    characters other than the comma (every HTTP token is one) -/
+def methodToken (m : Str) : Bool := !m.isEmpty && m.all (fun c => decide (33 ≤ c.toNat ∧ c.toNat < 127) && c != ',')
 
 end Spec
 end Restful
